@@ -121,7 +121,7 @@ CLAIMS["C20"] = dict(
     technique="Lean 4 invariant proof over an LTS + trace validation against the real code")
 
 CLAIMS["C10"] = dict(
-    text="35 Lean theorems over all event lists of LTS models of Semaphore and CapacityLimiter (any number of "
+    text="40 Lean theorems over all event lists of LTS models of Semaphore and CapacityLimiter (any number of "
          "tasks and borrowers): permit conservation (value + holders + in-flight + lost = initial + extra "
          "releases), holders never exceed existing permits, value <= max_value, value > 0 implies an empty "
          "queue, no barging, FIFO hand-over to the first live waiter, cancel-safety (a cancelled waiter changes "
@@ -130,7 +130,7 @@ CLAIMS["C10"] = dict(
          "total_tokens setter) starts from borrowed < total, borrowed <= total while total was never lowered "
          "below the number borrowed and never increases above it otherwise, no idle token while anyone is "
          "queued, statistics equal the ghost counts, one token per borrower, quiescence. Semaphore FIFO at history "
-         "level (Props/C10fifo.lean, 6 theorems, same construction as C09fifo): for every event list the hand-overs "
+         "level (Props/C10fifo.lean + Props/C10limfifo.lean, 11 theorems, same construction as C09fifo; 5 of them for the CapacityLimiter over disciplined histories: entries notified by release / give-back / total_tokens setter, followed by the queue, are a subsequence of the order of entry, C10_lim_fifo_history): for every event list the hand-overs "
          "followed by the queue are a subsequence of the waiting order, every start of waiting is accounted for "
          "exactly once (served / cancelled / still queued), exact equality without cancellations; the sem driver carries "
          "these logs and every semaphore trace compares them with lists derived from the real object. Tied to the code by "
@@ -295,7 +295,7 @@ CLAIMS["C17"] = dict(
          "module's exception mapping, transport_stream.send as atomic.",
     technique="Lean 4 invariant proof over an LTS with an abstract record engine + differential testing on real TLS")
 CLAIMS["C18"] = dict(
-    text="35 Lean theorems over all event lists of the StreamProtocol + SocketStream LTS and all scripts of the "
+    text="40 Lean theorems over all event lists of the StreamProtocol + SocketStream LTS and all scripts of the "
          "UNIX raw-socket loops: returned chunks concatenate to a prefix of the received bytes and to all of "
          "them once the queue is empty, each chunk has 1..max_bytes bytes with the remainder pushed back to the "
          "front, EndOfStream only at the end, closed-stream semantics (send refused, receive drains without "
